@@ -20,3 +20,11 @@ def run(ctx):
     r = ctx.rule("R6", "sample positions follow the documented screen-to-world map, and the 2D view is widened to 4x4 without losing an entry", 7)
     ctx.guarded(r, R.r_view_convention)
     ctx.guarded(r, R.r_widen_2d)
+    # "evaluating simplified tapes inside tiles must be unobservable": the tile's simplified tape is the original
+    # restricted by the trace (C04's rules, read here because a 2D render is where a wrong simplification shows)
+    from .. import simplify as S_
+
+    r = ctx.rule("R7", "tile simplification is sound: one choice consumed per choice op, Left / Right keep the first / second operand, survivors are renamed through the remap table", 53 + 8 + 44)
+    ctx.guarded(r, lambda rule: S_.r1_choice_consumption(rule))
+    ctx.guarded(r, S_.r2_left_right)
+    ctx.guarded(r, S_.r_renaming)
